@@ -69,6 +69,9 @@ def dev_kinds(case):
         out.append('addr=' + case['addr'])
     if case.get('store'):
         out.append('store=' + case['store'])
+    sp = case.get('speed')
+    if sp and tuple(sp) != ('instant', 'instant'):
+        out.append(f'users={sp[0]}/{sp[1]}')
     if i.get('oob') or r.get('oob'):
         out.append(f"oob={i.get('oob')}/{r.get('oob')}")
     return out
@@ -126,10 +129,16 @@ def judge(case, out):
                 neg.append(f'{me}.number={e[1]}')
     if method == 'PK' and disp == 'B':
         # both users type: when both mistype in the same way they have typed the same number, which is a correct entry
-        wi = [x[2:] for x in neg if x.startswith('i.number=wrong')]
-        wr = [x[2:] for x in neg if x.startswith('r.number=wrong')]
+        wi = [x[2:] for x in neg if x.startswith('i.number=') and x != 'i.number=none']
+        wr = [x[2:] for x in neg if x.startswith('r.number=') and x != 'r.number=none']
         if wi and wr and wi == wr:
-            neg = [x for x in neg if not x[2:].startswith('number=wrong')]
+            neg = [x for x in neg if x[2:] not in wi]
+    for me, peer in (('i', 'r'), ('r', 'i')):
+        # 000000 / 999999 typed blindly is a wrong passkey unless it happens to be the displayed one
+        shown = [e[1] for e in out['user'][peer] if e[0] == 'display']
+        for word, val in (('zero', 0), ('max', 999999)):
+            if shown and shown[0] == val:
+                neg = [x for x in neg if x != f'{me}.number={word}']
     tampered = bool(out['tamper_applied'])
     honest = not neg and not tampered
     if case.get('tamper') and not tampered:
@@ -374,6 +383,7 @@ def base_case(cell, seed=0):
     return c
 
 
+SPEEDS = (('instant', 'instant'), ('slow', 'instant'), ('instant', 'slow'), ('slow', 'slow'))  # (initiator, responder)
 KD_LATTICE = (0, ENC, ID, SIGN, LINK)  # 15 (everything) is the base value
 TAMPER_CODES = (3, 4, 13, 12)  # Confirm, Random, DHKey Check, Public Key
 
@@ -405,8 +415,15 @@ def deviations(case, public_ok=False):
     if method == 'PK':
         inputs = {'I': ['r'], 'R': ['i'], 'B': ['i', 'r']}[disp]
         for me in inputs:
-            for a in ('wrong0', 'wrong10', 'wrong19', 'none'):
+            for a in ('wrong0', 'wrong10', 'wrong19', 'zero', 'max', 'none'):
                 out.append(('ans', [(('ans', me, 'number'), a)]))
+    # every negative answer under every combination of user speeds (see harness UserGate)
+    for dim, patch in list(out):
+        if dim == 'ans':
+            for sp in SPEEDS[1:]:
+                out.append(('ans', patch + [(('speed',), list(sp))]))
+    for sp in SPEEDS[1:]:
+        out.append(('speed', [(('speed',), list(sp))]))
     # wire tamper
     for code in TAMPER_CODES:
         if not sc and code in (13, 12):
@@ -535,6 +552,9 @@ SCHED_CASES = {
     'sc-JW i.confirm=no': ('sc-JW', [(('ans', 'i', 'confirm'), 'no')]),
     'legacy-PK/I wrong': ('legacy-PK/I', [(('ans', 'r', 'number'), 'wrong0')]),
     'legacy-PK/R none': ('legacy-PK/R', [(('ans', 'i', 'number'), 'none')]),
+    'legacy-PK/R zero': ('legacy-PK/R', [(('ans', 'i', 'number'), 'zero')]),
+    'legacy-PK/I zero': ('legacy-PK/I', [(('ans', 'r', 'number'), 'zero')]),
+    'sc-PK/R wrong0': ('sc-PK/R', [(('ans', 'i', 'number'), 'wrong0')]),
     'r.accept=no': ('sc-JW', [(('ans', 'r', 'accept'), 'no')]),
     'sc-NC DHKey>r': ('sc-NC', [(('tamper',), {'to': 'r', 'code': 13, 'nth': 0, 'byte': 1})]),
     'sc-NC DHKey>i': ('sc-NC', [(('tamper',), {'to': 'i', 'code': 13, 'nth': 0, 'byte': 1})]),
@@ -657,9 +677,8 @@ def run(ctx: core.Context) -> int:
                 b = base_case(cell, seed)
                 devs = deviations(b, public_ok)
                 for (d1, p1), (d2, p2) in itertools.combinations(devs, 2):
-                    same_slot = d1 == d2 and p1[0][0] == p2[0][0]
-                    if same_slot or (d1 == 'tamper' and d2 == 'tamper'):
-                        continue
+                    if {q[0] for q in p1} & {q[0] for q in p2} or (d1 == 'tamper' and d2 == 'tamper'):
+                        continue  # two values for one slot
                     if 'kd' in (d1, d2) and (('addr',), 'default') in (p1[0], p2[0]):
                         continue  # the default identity (public) address needs the identity to be distributed both ways
                     add(apply(b, p1 + p2))
@@ -692,7 +711,7 @@ def run(ctx: core.Context) -> int:
 
     if not only or 'schedules' in only:
         st = ctx.sub('schedules')
-        names = [n for n in SCHED_CASES if not (quick and 'sc-PK' in n)]  # 20 passkey rounds = 300 choice points: thorough only
+        names = [n for n in SCHED_CASES if not (quick and n in ('sc-PK/I', 'sc-PK/R'))]  # 20 passkey rounds = 300 choice points: thorough only
         deep = [n for n in names if not quick and n in SCHED_DEEP]
         t_s = time.time()
         deadline = t_s + allow['schedules']
@@ -721,14 +740,17 @@ def run(ctx: core.Context) -> int:
             'cells, all-accept users, bonding, every key distributed, each followed by re-encryption on later connections in same '
             'and swapped roles. deviations: every single deviation in bonding per side, each key-distribution mask slot x '
             '{0,ENC,ID,SIGN,LINK}, security-request initiation, identity-address type, each negative user answer at each prompt of '
-            "the cell's model (reject / delegate raises / confirm no / compare no / passkey wrong in bit 0, 10, 19 / no passkey), "
+            "the cell's model (reject / delegate raises / confirm no / compare no / passkey wrong in bit 0, 10, 19 / 000000 / 999999 typed blindly / no "
+            'passkey), each of these under the 4 combinations of instant / slow user per side (slow = every delegate coroutine of that '
+            'side, incl. generate_passkey / display_number / key_distribution_response, resolves only when nothing else is runnable), '
+            'the 3 non-default user-speed combinations alone, '
             'one-bit corruption of Confirm / Random / DHKey Check / Public Key per direction (first and last passkey round) '
             '[quick: configuration deviations around the 50 cells with MITM on both sides and the same SC flag, answer and '
             'corruption deviations around the 100 cells with MITM on both sides; thorough: all of them around all 400 cells, plus '
             'every pair of deviations around the 50 cells]. masks: 16x16 masks of one side against a peer distributing everything, '
             'for each side [thorough: + the lattice {0,ENC,ID,SIGN,LINK,all}^4, and all 16^4 for legacy Just Works] on 2 (quick) / 4 '
             '(thorough) cells. schedules: all order-preserving delivery delays (HCI both ways, link, and the moment each user '
-            'answers) with <= 1 deviation on 18 (quick) / 20 (thorough) representative cases, <= 2 on 8 of them (thorough). '
+            'answers) with <= 1 deviation on 21 (quick) / 23 (thorough) representative cases, <= 2 on 8 of them (thorough). '
             'distinct = distinct case (configuration, answers, fault) resp. distinct (schedule prefix, choice fingerprints); '
             'outcome_classes counts distinct (model, deviation kinds, outcome per side, SMP codes seen per direction, '
             're-encryption results).'
